@@ -37,6 +37,8 @@ prop("C11", "exploration",
            required_classes=["multi-chunk-file", "resumed-multi-range"]),
       dict(pkg="payloadx", test="TestC11Pack", world="W0", quick=16000, thorough=800000,
            required_classes=["file-in-several-parts", "split", "several-files-in-one-payload"]),
+      dict(pkg="queuex", test="TestC11Resumed", world="W0+overlay", overlay=True, quick=8000, thorough=400000,
+           required_classes=["several-missing-ranges"]),
       dict(pkg="stagex", test="TestC11Sim", world="W1", quick=600, thorough=20000, per_proc=60, shrink_runs=150,
            required_classes=["multi-part-file", "multi-thread"])],
      ["harness implementations of sts.Recovered and sts.Binnable (the sender's own are unexported; exercised end to end in the simulation checks)",
